@@ -60,6 +60,7 @@ class Model:
         self.yylmax = yylmax
         self.viol = []
         self.stats = {}
+        self.notes = set()
         # scanner-wide state
         self.start = 0
         self.cstack = []
@@ -372,6 +373,10 @@ class Model:
 
     def ev_W(self, ev):
         self.wraps += 1
+        if self.more_next or (self.in_action and len(self.more_prefix) > 0):
+            # yytext carries (or is about to carry) a yymore() prefix while
+            # the end of a source is being processed
+            self.notes.add('more-active-at-source-end')
         b = self.cur()
         held = b.held if b else self.orphan
         eof = b.eof if b else self.orphan_eof
@@ -647,6 +652,8 @@ class Model:
         self.check_start(ev, 'at action entry')
         prefix = self.yytext if self.more_next else b''
         was_more = self.more_next
+        if was_more and self.lost_prefix_ok:
+            self.resync_lineno = True
         if self.rejecting:
             prefix = self.more_prefix
         self.more_next = False
@@ -733,7 +740,10 @@ class Model:
             raw = common.unhex(thex)
             cands = [bytes(prefix)]
             if was_more and self.lost_prefix_ok:
-                cands.append(b'')
+                # unspecified: kept or dropped.  When both readings fit the log,
+                # prefer what the implementation does (the %pointer prefix lives
+                # in the buffer that was just flushed; the %array one in yytext)
+                cands = [bytes(prefix), b''] if self.sc.array else [b'', bytes(prefix)]
             chosen = None
             for pf in cands:
                 nl_ = tlen - len(pf)
@@ -760,6 +770,8 @@ class Model:
                 etext = raw
                 new = raw[len(pf):]
             else:
+                if was_more and self.lost_prefix_ok:
+                    self.resync_lineno = True
                 if chosen != bytes(prefix):
                     self.stat('more-prefix-dropped-at-wrap')
                 prefix = chosen
@@ -783,6 +795,14 @@ class Model:
             self.stat('token-contains-nul')
         # lineno: newlines of the new part are now consumed
         self.add_lineno(new.count(b'\n'))
+        if self.resync_lineno and ev.get('lineno') is not None:
+            # the token followed an unspecified situation (yymore pending at a
+            # source change): take the scanner's count as the new base
+            self.resync_lineno = False
+            if self.sc.flavor == 'nr':
+                self.g_lineno = ev['lineno']
+            elif self.cur():
+                self.cur().lineno = ev['lineno']
         self.check_lineno(ev, 'at action entry')
         if self.sc.bol_needed() and ev.get('bol', -1) >= 0:
             # logged at action entry, i.e. after YY_RULE_SETUP updated it
@@ -791,6 +811,7 @@ class Model:
         self.reads_window = []
 
     tok_bol = False
+    resync_lineno = False
     tok_examined = 0
     tok_hit_end = False
 
